@@ -118,6 +118,8 @@ def session(kind, rng, length, ops_filter=None):
                         continue
                     o.remove_rolling_average(mtype=["velocity", "acc"][rng.integers(2)], freq_window=12)
                 else:
+                    if not (float(np.max(np.abs(np.asarray(o.values, dtype=float)))) > 0.0):
+                        continue       # the residual corrections scale their steps by the peak: an identically zero record has nothing to correct
                     getattr(o, m)()
                 ev.append({"op": "havoc", "name": m, "deg": -1, "after": after()})
     return ev
